@@ -55,6 +55,7 @@ fn main() {
                 "C06" => props::c06::run(&cx),
                 "C08" => props::c08::run(&cx),
                 "C09" => props::c09::run(&cx),
+                "C17" => props::c17::run(&cx),
                 other => {
                     eprintln!("unknown property {}", other);
                     3
